@@ -122,7 +122,7 @@ def main(argv=None):
         pass
     ctx = mp.get_context('forkserver')
     ctx.set_forkserver_preload(['numpy', 'scipy.signal', 'scipy.integrate', 'scipy.linalg', 'scipy.interpolate',
-                                'scipy.fftpack', 'z3', 'vf.harness', 'vf.engine.install', 'vf.engine.models',
+                                'scipy.fftpack', 'z3', 'vf.pdeath', 'vf.harness', 'vf.engine.install', 'vf.engine.models',
                                 'vf.engine.scipy_models', 'vf.known'])
     tasks = [(prop, dict(scenario=o.scenario, params=o.params, optional=o.optional, timeout_s=o.timeout_s,
                          query_ms=o.query_ms, max_paths=o.max_paths)) for o in obs]
@@ -135,7 +135,8 @@ def main(argv=None):
     flag = os.path.join(flagdir, 'settled')
     os.environ['VF_SETTLED_FLAG'] = flag
     os.environ['VF_MAIN_PID'] = str(os.getpid())      # workers exit on their own if this process disappears
-    with ctx.Pool(processes=a.jobs, maxtasksperchild=1) as pool:
+    from vf import pdeath
+    with ctx.Pool(processes=a.jobs, maxtasksperchild=1, initializer=pdeath.arm) as pool:
         import signal
 
         def _bye(signum, frame):
